@@ -20,6 +20,32 @@ def frames_for(payload, cutpoints, interleave=None):
     return b''.join(out)
 
 
+def frames_for_parts(parts):
+    return b''.join(ref.server_frame(1 if i == 0 else 0, p, fin=1 if i == len(parts) - 1 else 0) for i, p in enumerate(parts))
+
+
+def empty_fragment_check():
+    """empty fragments (first, middle, final) neither change the verdict nor the decoding: in particular a sequence
+    truncated at the end of the last NON-EMPTY fragment is still truncated when an empty FIN frame closes the message"""
+    for payload, ok in [(t.encode('utf-8'), True) for t in GOOD] + [(b, False) for b in BAD]:
+        n = len(payload)
+        shapes = [[payload, b''], [b'', payload], [b'', payload, b'']]
+        for c in range(1, n):
+            shapes += [[payload[:c], b'', payload[c:]], [payload[:c], payload[c:], b''], [b'', payload[:c], payload[c:]]]
+        for parts in shapes:
+            stream = frames_for_parts(parts) + ref.server_frame(2, b'end')
+            for cuts in (None, range(1, 2048)):
+                run = harness.drive(stream=stream, cuts=cuts, connect_kwargs=dict(ping_rate=0))
+                texts = [e.text for e in run.events if e.name == 'text']
+                npe = sum(1 for e in run.events if e.name == 'protocol_error')
+                desc = 'text message sent as fragments %r%s' % ([p.hex() for p in parts], ', one byte per read' if cuts else '')
+                if ok and (texts != [payload.decode('utf-8')] or npe):
+                    return dict(found=True, input=desc, expected='Text event with the exact decoding', observed='texts=%r protocol_errors=%d' % (texts, npe))
+                if not ok and (texts or npe != 1):
+                    return dict(found=True, input=desc, expected='one ProtocolError and no Text event', observed='texts=%r protocol_errors=%d' % (texts, npe))
+    return None
+
+
 def deliver_check():
     for payload, ok in [(t.encode('utf-8'), True) for t in GOOD] + [(b, False) for b in BAD]:
         n = len(payload)
@@ -105,7 +131,7 @@ def fail_fast_by_read_check():
 
 
 def replay(obligation, extra):
-    r = fail_fast_check() or fail_fast_by_read_check() or deliver_check()
+    r = fail_fast_check() or fail_fast_by_read_check() or empty_fragment_check() or deliver_check()
     return r or dict(found=False, tried='delivery matrix (%d payloads x all 1-cut fragmentations x interleaved control frames x 2 segmentations) and fail-fast scenarios' % (len(GOOD) + len(BAD)))
 
 
